@@ -595,6 +595,7 @@ func main() {
 	R.Rule("TLS: every generated ClientHello (2 versions x sid 0/32 x 1-3 suites x every ordered selection of <=4 of {SNI,ALPN,supported_versions,GREASE,padding} x 8 SNI-list shapes, plus the no-extensions forms) x every cutting into <=2 reads with first read >=5 bytes x {record alone, last read runs on into later data} x 4 relay routes (thorough adds every cutting into 3 reads for the hellos with empty session id and one suite); " +
 		"HTTP: every head of genHTTPHeads in one read x 4 routes, 7 heads x every 2-read cut; QUIC: 2 versions x 2 hellos x CRYPTO stream cut at boundary offsets (thorough: every offset) into <=3 frames (and into 2 overlapping frames) x every order x 5 PADDING/PING patterns x {1 packet, 2 coalesced, 2 datagrams} x every split point; " +
 		"negatives: every truncation and single-bit flip of one TLS/HTTP/QUIC instance (and of the hello inside QUIC), all strings of length <=4 (thorough <=6) over {16,03,01,'G',c0,00}, QUIC packets with every frame-byte string of length <=3 (thorough <=4) over {00,01,06,1c,02,40,ff} in 4 placements, every single and pairwise +-1/+-2 perturbation of the length fields, every extension block of length <=5 (thorough <=6) over {00,01,02,03,05,'a'}; " +
+		"UDP histories: every sequence of length <=4 (thorough <=5) over {Initial with first part of the CRYPTO stream, Initial with the rest, whole hello, short PING/PADDING Initial, Initial that does not decrypt, non-QUIC datagram, CompactPacketState} on ONE packet sniffer; TCP glue: every ordered pair of 6 connection kinds x every interleaving of their (probe, sniff, relay) steps through the real control.prefetchForTcpSniff x 2 relay routes each; " +
 		"distinct_nontrivial = distinct (input bytes, cutting) pairs with a non-empty input, hashed")
 	if k := os.Getenv("C06_KEEP"); k != "" { // development aid: keep more cases per violation class
 		fmt.Sscan(k, &keepPer)
@@ -614,6 +615,10 @@ func main() {
 	}
 	if only == "" || only == "timing" {
 		legTiming(thorough)
+	}
+	if only == "" || only == "hist" {
+		legUDPHistories(thorough)
+		legTCPGlue()
 	}
 
 	R.Set("tcp_name_found", tstat.found.Load())
